@@ -31,7 +31,7 @@ TRAD = {"CFS", "GPM", "MGD", "IMGD", "AFD"}
 # networks whose features both engines support and whose hydraulics are well conditioned (no disconnected demand, no
 # threshold ties): the agreement checks are restricted to them; the reader validation uses every INP file EPANET accepts
 COMMON = ["builtin:net1_noon_rule", "builtin:net1_pressure_control", "builtin:head_pattern_with_pattern_start", "builtin:tcv_setting_control", "builtin:open_valves_FCV",
-          "builtin:open_valves_PRV", "builtin:open_valves_TCV", "builtin:rule_two_else_actions", "builtin:low_head_tcv", "builtin:pump_against_a_higher_zone", "builtin:two_point_pump_curve", "examples/networks/Net1.inp", "examples/networks/Net2.inp", "examples/networks/Net3.inp",
+          "builtin:open_valves_PRV", "builtin:open_valves_TCV", "builtin:rule_two_else_actions", "builtin:low_head_tcv", "builtin:pump_against_a_higher_zone", "builtin:two_point_pump_curve", "builtin:pump_draws_from_a_tank", "builtin:rules_mixing_and_or_text", "examples/networks/Net1.inp", "examples/networks/Net2.inp", "examples/networks/Net3.inp",
           "wntr/tests/networks_for_testing/Todini_Fig2_optCost_CMH.inp", "wntr/tests/networks_for_testing/Todini_Fig2_optCost_GPM.inp",
           "wntr/tests/networks_for_testing/Todini_Fig2_solA_CMH.inp", "wntr/tests/networks_for_testing/Todini_Fig2_solA_GPM.inp",
           "wntr/tests/networks_for_testing/conditional_controls_1.inp", "wntr/tests/networks_for_testing/leaks.inp",
@@ -48,6 +48,63 @@ UNIT_NETS = ["builtin:gpv", "builtin:pbv"] + COMMON + ["wntr/tests/networks_for_
 # demand has adapted; WNTR's result satisfies d = D*sqrt(p/Preq) (C07, proved). Compared under DD only.
 PDD_SKIP = {"builtin:tcv_setting_control"}
 KEYS = (("node", "head"), ("node", "pressure"), ("node", "demand"), ("link", "flowrate"), ("link", "status"))
+
+
+_RULES_TEXT = """[TITLE]
+rules that mix AND and OR
+
+[JUNCTIONS]
+ J1   20    0
+ J2   15    8       D
+ J3   12    6       D
+ J4   10    5       D
+
+[RESERVOIRS]
+ R1   70
+
+[TANKS]
+ T1   50    3     0.5  8    12    0
+
+[PIPES]
+ P1  R1  J1  800   300   110    0      Open
+ P2  J1  J2  600   250   110    0      Open
+ P3  J2  J3  500   200   110    0      Open
+ P4  J3  T1  400   200   110    0      Open
+ P5  J2  J4  700   150   100    0      Open
+ P6  J4  J3  700   150   100    0      Open
+
+[PATTERNS]
+ D   1.0 1.2 0.9 1.4 0.8 1.1
+
+[RULES]
+RULE 1
+IF SYSTEM TIME >= 6:00
+AND JUNCTION J4 PRESSURE < 1
+OR TANK T1 LEVEL > 1
+THEN PIPE P5 STATUS IS CLOSED
+PRIORITY 1
+
+RULE 2
+IF TANK T1 LEVEL > 100
+OR SYSTEM TIME >= 3:00
+AND SYSTEM TIME < 9:00
+THEN PIPE P1 STATUS IS CLOSED
+ELSE PIPE P1 STATUS IS OPEN
+PRIORITY 2
+
+[TIMES]
+ Duration            12:00
+ Hydraulic Timestep  1:00
+ Pattern Timestep    2:00
+ Report Timestep     1:00
+ Rule Timestep       1:00
+
+[OPTIONS]
+ Units     LPS
+ Headloss  H-W
+
+[END]
+"""
 
 
 def repo_root():
@@ -88,6 +145,27 @@ def _builtin(name):
         wn.options.time.pattern_timestep = 3600
         wn.options.time.pattern_start = 7200
         return wn
+    if name == "pump_draws_from_a_tank":         # the suction tank of a pump runs down to its minimum level: the pump is shut and the level held there
+        wn = wntr.network.WaterNetworkModel()
+        wn.options.time.duration = 10 * 3600
+        wn.options.time.pattern_timestep = 3600
+        wn.add_reservoir("r", base_head=60.0)
+        wn.add_tank("t", elevation=20.0, init_level=2.0, min_level=1.0, max_level=6.0, diameter=6.0)
+        wn.add_junction("j0", base_demand=0.0, elevation=20.0)
+        wn.add_junction("j1", base_demand=0.02, elevation=10.0)
+        wn.add_junction("j2", base_demand=0.01, elevation=12.0)
+        wn.add_pipe("pr", "r", "j1", length=1500, diameter=0.25, roughness=100)
+        wn.add_pipe("p1", "j1", "j2", length=600, diameter=0.25, roughness=110)
+        wn.add_pipe("p0", "j0", "j2", length=300, diameter=0.25, roughness=110)
+        wn.add_curve("pc", "HEAD", [(0.01, 30.0)])
+        wn.add_pump("out", "t", "j0", "HEAD", "pc")
+        return wn
+    if name == "rules_mixing_and_or_text":       # read from INP text: EPANET evaluates premises left to right, IF A AND B OR C = A and (B or C)
+        with Scratch() as d:
+            path = os.path.join(d, "rules.inp")
+            with open(path, "w") as f:
+                f.write(_RULES_TEXT)
+            return wntr.network.WaterNetworkModel(path)
     if name == "two_point_pump_curve":           # a head pump whose curve is a straight line through two points, the first not at zero flow
         wn = wntr.network.WaterNetworkModel()
         wn.add_pattern("dp", [1.0, 0.5, 1.6, 0.8])
